@@ -167,5 +167,26 @@
         return MASK_ALIAS{has_single_bit(UVEC_ALIAS(x))};\
     }\
 
+#if defined(AVEL_SSE2)
+
+namespace avel {
+
+    ///
+    /// Stores the first n bytes of v to ptr and touches no other byte.
+    ///
+    /// Used by the partial stores instead of _mm_maskmoveu_si128, whose memory
+    /// access covers the whole 16-byte window regardless of the mask: it faults
+    /// when the window reaches an inaccessible page even though every byte in
+    /// that page is masked out.
+    ///
+    AVEL_FINL void store_first_bytes(void* ptr, __m128i v, std::uint32_t n) {
+        alignas(16) unsigned char buffer[16];
+        _mm_store_si128(reinterpret_cast<__m128i*>(buffer), v);
+        std::memcpy(ptr, buffer, n);
+    }
+
+}
+
+#endif
 
 #endif //AVEL_VECTORS_COMMON_HPP
